@@ -351,6 +351,10 @@ impl<R: Clone + 'static> GlobalCache<R> {
 
         // Acquire read lock - allows concurrent reads
         {
+            #[cfg(feature = "verif")]
+            crate::verif::yield_point(1001, crate::verif::addr_of(&**self.map), crate::verif::Acq::Shared, &|| !self.map.is_locked_exclusive());
+            #[cfg(feature = "verif")]
+            let _verif_held_1 = crate::verif::hold(crate::verif::addr_of(&**self.map));
             let m = self.map.read();
             if let Some(entry) = m.get(key) {
                 if entry.is_expired(self.ttl) {
@@ -363,8 +367,16 @@ impl<R: Clone + 'static> GlobalCache<R> {
 
         if expired {
             // Acquiring order lock to modify order queue
+            #[cfg(feature = "verif")]
+            crate::verif::yield_point(1002, crate::verif::addr_of(&**self.order), crate::verif::Acq::Exclusive, &|| !self.order.is_locked());
+            #[cfg(feature = "verif")]
+            let _verif_held_2 = crate::verif::hold(crate::verif::addr_of(&**self.order));
             let mut o = self.order.lock();
             // Acquire write lock to modify the map
+            #[cfg(feature = "verif")]
+            crate::verif::yield_point(1003, crate::verif::addr_of(&**self.map), crate::verif::Acq::Exclusive, &|| !self.map.is_locked());
+            #[cfg(feature = "verif")]
+            let _verif_held_3 = crate::verif::hold(crate::verif::addr_of(&**self.map));
             let mut map_write = self.map.write();
             remove_key_from_global_cache(&mut map_write, &mut o, key);
             #[cfg(feature = "stats")]
@@ -387,6 +399,8 @@ impl<R: Clone + 'static> GlobalCache<R> {
             match self.policy {
                 EvictionPolicy::LRU => {
                     // Move key to end of order queue (most recently used)
+                    #[cfg(feature = "verif")]
+                    crate::verif::yield_point(1004, crate::verif::addr_of(&**self.order), crate::verif::Acq::Exclusive, &|| !self.order.is_locked());
                     move_key_to_end(&mut self.order.lock(), key);
                 }
                 EvictionPolicy::LFU => {
@@ -396,6 +410,8 @@ impl<R: Clone + 'static> GlobalCache<R> {
                 EvictionPolicy::ARC => {
                     // Adaptive Replacement: Update both recency (LRU) and frequency (LFU)
                     // Move key to end (recency) - lock is automatically released after this call
+                    #[cfg(feature = "verif")]
+                    crate::verif::yield_point(1005, crate::verif::addr_of(&**self.order), crate::verif::Acq::Exclusive, &|| !self.order.is_locked());
                     move_key_to_end(&mut self.order.lock(), key);
                     // Increment frequency counter
                     self.increment_frequency(key);
@@ -403,6 +419,8 @@ impl<R: Clone + 'static> GlobalCache<R> {
                 EvictionPolicy::TLRU => {
                     // Time-aware LRU: Update both recency and frequency
                     // Similar to ARC but considers age in eviction
+                    #[cfg(feature = "verif")]
+                    crate::verif::yield_point(1006, crate::verif::addr_of(&**self.order), crate::verif::Acq::Exclusive, &|| !self.order.is_locked());
                     move_key_to_end(&mut self.order.lock(), key);
                     self.increment_frequency(key);
                 }
@@ -417,6 +435,10 @@ impl<R: Clone + 'static> GlobalCache<R> {
 
     /// Increments the frequency counter for the specified key.
     fn increment_frequency(&self, key: &str) {
+        #[cfg(feature = "verif")]
+        crate::verif::yield_point(1007, crate::verif::addr_of(&**self.map), crate::verif::Acq::Exclusive, &|| !self.map.is_locked());
+        #[cfg(feature = "verif")]
+        let _verif_held_7 = crate::verif::hold(crate::verif::addr_of(&**self.map));
         let mut m = self.map.write();
         if let Some(entry) = m.get_mut(key) {
             entry.increment_frequency();
@@ -483,8 +505,14 @@ impl<R: Clone + 'static> GlobalCache<R> {
         let entry = CacheEntry::new(value);
 
         // Acquire write lock for modification
+        #[cfg(feature = "verif")]
+        crate::verif::yield_point(1008, crate::verif::addr_of(&**self.map), crate::verif::Acq::Exclusive, &|| !self.map.is_locked());
         self.map.write().insert(key_s.clone(), entry);
 
+        #[cfg(feature = "verif")]
+        crate::verif::yield_point(1009, crate::verif::addr_of(&**self.order), crate::verif::Acq::Exclusive, &|| !self.order.is_locked());
+        #[cfg(feature = "verif")]
+        let _verif_held_9 = crate::verif::hold(crate::verif::addr_of(&**self.order));
         let mut o = self.order.lock();
         if let Some(pos) = o.iter().position(|k| *k == key_s) {
             o.remove(pos);
@@ -532,6 +560,10 @@ impl<R: Clone + 'static> GlobalCache<R> {
                 match self.policy {
                     EvictionPolicy::LFU => {
                         // Find and evict the entry with the minimum frequency
+                        #[cfg(feature = "verif")]
+                        crate::verif::yield_point(1010, crate::verif::addr_of(&**self.map), crate::verif::Acq::Exclusive, &|| !self.map.is_locked());
+                        #[cfg(feature = "verif")]
+                        let _verif_held_10 = crate::verif::hold(crate::verif::addr_of(&**self.map));
                         let mut map_write = self.map.write();
                         let min_freq_key = find_min_frequency_key(&map_write, &o);
 
@@ -540,6 +572,10 @@ impl<R: Clone + 'static> GlobalCache<R> {
                         }
                     }
                     EvictionPolicy::ARC => {
+                        #[cfg(feature = "verif")]
+                        crate::verif::yield_point(1011, crate::verif::addr_of(&**self.map), crate::verif::Acq::Exclusive, &|| !self.map.is_locked());
+                        #[cfg(feature = "verif")]
+                        let _verif_held_11 = crate::verif::hold(crate::verif::addr_of(&**self.map));
                         let mut map_write = self.map.write();
                         if let Some(evict_key) =
                             find_arc_eviction_key(&map_write, o.iter().enumerate())
@@ -548,6 +584,10 @@ impl<R: Clone + 'static> GlobalCache<R> {
                         }
                     }
                     EvictionPolicy::TLRU => {
+                        #[cfg(feature = "verif")]
+                        crate::verif::yield_point(1012, crate::verif::addr_of(&**self.map), crate::verif::Acq::Exclusive, &|| !self.map.is_locked());
+                        #[cfg(feature = "verif")]
+                        let _verif_held_12 = crate::verif::hold(crate::verif::addr_of(&**self.map));
                         let mut map_write = self.map.write();
                         if let Some(evict_key) = find_tlru_eviction_key(
                             &map_write,
@@ -563,6 +603,10 @@ impl<R: Clone + 'static> GlobalCache<R> {
                         if !o.is_empty() {
                             let pos = fastrand::usize(..o.len());
                             if let Some(evict_key) = o.remove(pos) {
+                                #[cfg(feature = "verif")]
+                                crate::verif::yield_point(1013, crate::verif::addr_of(&**self.map), crate::verif::Acq::Exclusive, &|| !self.map.is_locked());
+                                #[cfg(feature = "verif")]
+                                let _verif_held_13 = crate::verif::hold(crate::verif::addr_of(&**self.map));
                                 let mut map_write = self.map.write();
                                 map_write.remove(&evict_key);
                             }
@@ -570,6 +614,10 @@ impl<R: Clone + 'static> GlobalCache<R> {
                     }
                     EvictionPolicy::FIFO | EvictionPolicy::LRU => {
                         // Keep trying to evict until we find a valid entry or queue is empty
+                        #[cfg(feature = "verif")]
+                        crate::verif::yield_point(1014, crate::verif::addr_of(&**self.map), crate::verif::Acq::Exclusive, &|| !self.map.is_locked());
+                        #[cfg(feature = "verif")]
+                        let _verif_held_14 = crate::verif::hold(crate::verif::addr_of(&**self.map));
                         let mut map_write = self.map.write();
                         while let Some(evict_key) = o.pop_front() {
                             // Check if the key still exists in the cache before removing
@@ -659,8 +707,14 @@ impl<R: Clone + 'static + crate::MemoryEstimator> GlobalCache<R> {
         let entry = CacheEntry::new(value);
 
         // Acquire write lock for modification
+        #[cfg(feature = "verif")]
+        crate::verif::yield_point(1015, crate::verif::addr_of(&**self.map), crate::verif::Acq::Exclusive, &|| !self.map.is_locked());
         self.map.write().insert(key_s.clone(), entry);
 
+        #[cfg(feature = "verif")]
+        crate::verif::yield_point(1016, crate::verif::addr_of(&**self.order), crate::verif::Acq::Exclusive, &|| !self.order.is_locked());
+        #[cfg(feature = "verif")]
+        let _verif_held_16 = crate::verif::hold(crate::verif::addr_of(&**self.order));
         let mut o = self.order.lock();
         if let Some(pos) = o.iter().position(|k| *k == key_s) {
             o.remove(pos);
@@ -672,6 +726,10 @@ impl<R: Clone + 'static + crate::MemoryEstimator> GlobalCache<R> {
             // First, check if the new value by itself exceeds max_mem
             // This is a safety check to prevent infinite eviction loop
             let new_value_size = {
+                #[cfg(feature = "verif")]
+                crate::verif::yield_point(1017, crate::verif::addr_of(&**self.map), crate::verif::Acq::Shared, &|| !self.map.is_locked_exclusive());
+                #[cfg(feature = "verif")]
+                let _verif_held_17 = crate::verif::hold(crate::verif::addr_of(&**self.map));
                 let map_read = self.map.read();
                 map_read
                     .get(&key_s)
@@ -682,6 +740,8 @@ impl<R: Clone + 'static + crate::MemoryEstimator> GlobalCache<R> {
             if new_value_size > max_mem {
                 // The value itself is too large for the cache
                 // Remove it and return early to respect memory limit
+                #[cfg(feature = "verif")]
+                crate::verif::yield_point(1018, crate::verif::addr_of(&**self.map), crate::verif::Acq::Exclusive, &|| !self.map.is_locked());
                 self.map.write().remove(&key_s);
                 o.pop_back(); // Remove from order queue as well
                 return;
@@ -689,6 +749,10 @@ impl<R: Clone + 'static + crate::MemoryEstimator> GlobalCache<R> {
 
             loop {
                 let current_mem = {
+                    #[cfg(feature = "verif")]
+                    crate::verif::yield_point(1019, crate::verif::addr_of(&**self.map), crate::verif::Acq::Shared, &|| !self.map.is_locked_exclusive());
+                    #[cfg(feature = "verif")]
+                    let _verif_held_19 = crate::verif::hold(crate::verif::addr_of(&**self.map));
                     let map_read = self.map.read();
                     map_read
                         .values()
@@ -703,6 +767,10 @@ impl<R: Clone + 'static + crate::MemoryEstimator> GlobalCache<R> {
                 // Need to evict based on policy
                 let evicted = match self.policy {
                     EvictionPolicy::LFU => {
+                        #[cfg(feature = "verif")]
+                        crate::verif::yield_point(1020, crate::verif::addr_of(&**self.map), crate::verif::Acq::Exclusive, &|| !self.map.is_locked());
+                        #[cfg(feature = "verif")]
+                        let _verif_held_20 = crate::verif::hold(crate::verif::addr_of(&**self.map));
                         let mut map_write = self.map.write();
                         let min_freq_key = find_min_frequency_key(&map_write, &o);
                         if let Some(evict_key) = min_freq_key {
@@ -713,6 +781,10 @@ impl<R: Clone + 'static + crate::MemoryEstimator> GlobalCache<R> {
                         }
                     }
                     EvictionPolicy::ARC => {
+                        #[cfg(feature = "verif")]
+                        crate::verif::yield_point(1021, crate::verif::addr_of(&**self.map), crate::verif::Acq::Exclusive, &|| !self.map.is_locked());
+                        #[cfg(feature = "verif")]
+                        let _verif_held_21 = crate::verif::hold(crate::verif::addr_of(&**self.map));
                         let mut map_write = self.map.write();
                         if let Some(evict_key) =
                             find_arc_eviction_key(&map_write, o.iter().enumerate())
@@ -724,6 +796,10 @@ impl<R: Clone + 'static + crate::MemoryEstimator> GlobalCache<R> {
                         }
                     }
                     EvictionPolicy::TLRU => {
+                        #[cfg(feature = "verif")]
+                        crate::verif::yield_point(1022, crate::verif::addr_of(&**self.map), crate::verif::Acq::Exclusive, &|| !self.map.is_locked());
+                        #[cfg(feature = "verif")]
+                        let _verif_held_22 = crate::verif::hold(crate::verif::addr_of(&**self.map));
                         let mut map_write = self.map.write();
                         if let Some(evict_key) = find_tlru_eviction_key(
                             &map_write,
@@ -742,6 +818,10 @@ impl<R: Clone + 'static + crate::MemoryEstimator> GlobalCache<R> {
                         if !o.is_empty() {
                             let pos = fastrand::usize(..o.len());
                             if let Some(evict_key) = o.remove(pos) {
+                                #[cfg(feature = "verif")]
+                                crate::verif::yield_point(1023, crate::verif::addr_of(&**self.map), crate::verif::Acq::Exclusive, &|| !self.map.is_locked());
+                                #[cfg(feature = "verif")]
+                                let _verif_held_23 = crate::verif::hold(crate::verif::addr_of(&**self.map));
                                 let mut map_write = self.map.write();
                                 map_write.remove(&evict_key);
                                 true
@@ -755,6 +835,10 @@ impl<R: Clone + 'static + crate::MemoryEstimator> GlobalCache<R> {
                     EvictionPolicy::FIFO | EvictionPolicy::LRU => {
                         // Ensure we only count as evicted if we actually remove from the map
                         let mut successfully_evicted = false;
+                        #[cfg(feature = "verif")]
+                        crate::verif::yield_point(1024, crate::verif::addr_of(&**self.map), crate::verif::Acq::Exclusive, &|| !self.map.is_locked());
+                        #[cfg(feature = "verif")]
+                        let _verif_held_24 = crate::verif::hold(crate::verif::addr_of(&**self.map));
                         let mut map_write = self.map.write();
                         while let Some(evict_key) = o.pop_front() {
                             if map_write.contains_key(&evict_key) {
@@ -842,7 +926,13 @@ impl<R: Clone + 'static + crate::MemoryEstimator> GlobalCache<R> {
     /// assert_eq!(cache.get("key2"), None);
     /// ```
     pub fn clear(&self) {
+        #[cfg(feature = "verif")]
+        crate::verif::yield_point(1025, crate::verif::addr_of(&**self.order), crate::verif::Acq::Exclusive, &|| !self.order.is_locked());
+        #[cfg(feature = "verif")]
+        let _verif_held_25 = crate::verif::hold(crate::verif::addr_of(&**self.order));
         let mut o = self.order.lock();
+        #[cfg(feature = "verif")]
+        crate::verif::yield_point(1026, crate::verif::addr_of(&**self.map), crate::verif::Acq::Exclusive, &|| !self.map.is_locked());
         self.map.write().clear();
         o.clear();
     }
